@@ -597,7 +597,7 @@ func (repo *Repository) CheckHeader(ctx context.Context,
 
 	branch, height := repo.branches.Find(hash)
 	if branch != nil {
-		return height, branch == repo.longest, nil
+		return height, repo.isInLongest(hash, height), nil
 	}
 
 	// Lookup in larger map
@@ -606,6 +606,14 @@ func (repo *Repository) CheckHeader(ctx context.Context,
 	}
 
 	return -1, false, ErrUnknownHeader
+}
+
+// isInLongest returns true if the hash is the header at the height in the most proof of work chain.
+// The branch containing a header isn't enough to tell because the chain below a fork is held by
+// the parent branches.
+func (repo *Repository) isInLongest(hash bitcoin.Hash32, height int) bool {
+	at := repo.longest.AtHeight(height)
+	return at != nil && at.Hash.Equal(&hash)
 }
 
 // GetHeader returns the header with the specified hash with its block height and whether it is
@@ -622,7 +630,7 @@ func (repo *Repository) GetHeader(ctx context.Context,
 			return nil, -1, false, ErrHeaderNotAvailable
 		}
 
-		return data.Header, height, branch == repo.longest, nil
+		return data.Header, height, repo.isInLongest(hash, height), nil
 	}
 
 	// Lookup in larger map
